@@ -21,3 +21,4 @@ open IrVerif.SymExpr
 #print axioms IrVerif.SymExpr.C16_print_parse_sympy
 #print axioms IrVerif.SymExpr.C16_overload_dispatch_bool
 #print axioms IrVerif.SymExpr.C16_print_parse_sympy_symexp
+#print axioms IrVerif.SymExpr.C16_print_parse_sympy_refines
